@@ -180,7 +180,24 @@ func genPiece(t *rapid.T, rich int) string {
 	}
 }
 
+// printableOnly (sub-check b): drop every rune the second writer would spell as \u.... (its known
+// defect), so that a good share of the cases explores everything else.
+var printableOnly bool
+
 func genString(t *rapid.T, rich int) string {
+	s := genString1(t, rich)
+	if printableOnly {
+		s = strings.Map(func(r rune) rune {
+			if r == '\n' || r == '\r' || r == '\t' || unicode.IsPrint(r) {
+				return r
+			}
+			return -1
+		}, s)
+	}
+	return s
+}
+
+func genString1(t *rapid.T, rich int) string {
 	if rich == 0 {
 		return rapid.SampledFrom(identLike).Draw(t, "id")
 	}
